@@ -383,6 +383,31 @@ seed("C07", "compare-ring-never-wraps-flag", "wrapped flag set one step late", [
 seed("C04", "window-start-stop-swapped", "recording window built with start and stop swapped", ["C04.S7"],
      (RC, "\t\twindowsConfig.StartRecording,\n\t\twindowsConfig.StopRecording,", "\t\twindowsConfig.StopRecording,\n\t\twindowsConfig.StartRecording,"))
 
+# ---- round-3 obligations
+seed("C03", "written-never-reset", "the written counter is not reset when a recording stops", ["C03.L6"],
+     (MP, "\tmp.framesWritten = 0\n\tmp.writeUntil = 0\n\tmp.isRecording = false", "\tmp.writeUntil = 0\n\tmp.isRecording = false"))
+seed("C03", "written-reset-only-on-clean-stop", "the counters are reset only when the recorder's stop succeeds", ["C03.L6"],
+     (MP, "\terr := mp.recorder.StopRecording()\n\n\tmp.framesWritten = 0\n\tmp.writeUntil = 0\n", "\terr := mp.recorder.StopRecording()\n\n\tif err == nil {\n\t\tmp.framesWritten = 0\n\t\tmp.writeUntil = 0\n\t}\n"))
+seed("C04", "throttler-start-error-logged-only", "the throttler logs a refused start and reports success", ["C04.S6"],
+     ("throttle/throttled_recorder.go", "\t\tif err := throttler.recorder.StartRecording(background, tempThresh); err != nil {\n\t\t\treturn err\n\t\t}\n\t\tthrottler.recording = true", "\t\tif err := throttler.recorder.StartRecording(background, tempThresh); err != nil {\n\t\t\tlog.Printf(\"start failed: %v\", err)\n\t\t\treturn nil\n\t\t}\n\t\tthrottler.recording = true"))
+seed("C06", "throttler-start-error-logged-only", "the throttler logs a refused start and reports success", ["C06.X3"],
+     ("throttle/throttled_recorder.go", "\t\tif err := throttler.recorder.StartRecording(background, tempThresh); err != nil {\n\t\t\treturn err\n\t\t}\n\t\tthrottler.recording = true", "\t\tif err := throttler.recorder.StartRecording(background, tempThresh); err != nil {\n\t\t\tlog.Printf(\"start failed: %v\", err)\n\t\t\treturn nil\n\t\t}\n\t\tthrottler.recording = true"))
+seed("C05", "defaults-restored-after-load", "throttle.NewConfig re-applies the defaults after reading the section", ["C05.T2"],
+     ("throttle/config.go", "\treturn &thermalThrottler, nil", "\tif thermalThrottler.BucketSize <= 0 {\n\t\tthermalThrottler = config.DefaultThermalThrottler()\n\t}\n\treturn &thermalThrottler, nil"))
+seed("C05", "bucket-size-floored", "main floors the configured bucket size before building the throttler", ["C05.T2"],
+     ("cmd/thermal-recorder/config.go", "\t\tThrottler:    *throttlerConfig,", "\t\tThrottler:    floorBucket(*throttlerConfig),"),
+     ("cmd/thermal-recorder/config.go", "func ParseConfig(", "func floorBucket(t goconfig.ThermalThrottler) goconfig.ThermalThrottler {\n\tif t.BucketSize < t.MinRefill {\n\t\tt.BucketSize = t.MinRefill\n\t}\n\treturn t\n}\n\nfunc ParseConfig("))
+seed("C03", "min-secs-floored-in-main", "runMain raises min-secs after the config was loaded", ["C03.L1"],
+     ("cmd/thermal-recorder/main.go", "\tconf.LoadMotionConfig(headerInfo.Model())\n\tlogConfig(conf)\n", "\tconf.LoadMotionConfig(headerInfo.Model())\n\tif conf.Recorder.MinSecs < 5 {\n\t\tconf.Recorder.MinSecs = 5\n\t}\n\tlogConfig(conf)\n"))
+seed("C18", "frames-through-second-reader", "frames are read through a second buffered reader", ["C18.W2"],
+     ("cmd/thermal-writer/main.go", "\tt0 := time.Now()\n\tfor {\n\t\tframe := <-spentFrames\n\t\t_, err := io.ReadFull(reader, frame)", "\tt0 := time.Now()\n\tframeReader := bufio.NewReaderSize(conn, 1<<16)\n\tfor {\n\t\tframe := <-spentFrames\n\t\t_, err := io.ReadFull(frameReader, frame)"))
+seed("C10", "cleanup-on-every-connection", "the temp-file clean-up also runs from the connection handler", ["C10.D4"],
+     ("cmd/thermal-recorder/main.go", "func handleConn(conn net.Conn, conf *Config) error {\n", "func handleConn(conn net.Conn, conf *Config) error {\n\tif err := deleteTempFiles(conf.OutputDir); err != nil {\n\t\treturn err\n\t}\n"))
+seed("C17", "cleanup-on-every-connection", "the temp-file clean-up also runs from the connection handler", ["C17.V4"],
+     ("cmd/thermal-recorder/main.go", "func handleConn(conn net.Conn, conf *Config) error {\n", "func handleConn(conn net.Conn, conf *Config) error {\n\tif err := deleteTempFiles(conf.OutputDir); err != nil {\n\t\treturn err\n\t}\n"))
+seed("C13", "edge-pixels-minimum-one", "the loaded edge-pixels setting is raised to at least 1", ["C13.B1"],
+     ("motion/motionconfig.go", "func validateConfig(*config.ThermalMotion) error {\n\t// TODO\n", "func validateConfig(conf *config.ThermalMotion) error {\n\tif conf.EdgePixels < 1 {\n\t\tconf.EdgePixels = 1\n\t}\n"))
+
 here = os.path.dirname(os.path.abspath(__file__))
 for pid, name, d in S:
     os.makedirs(os.path.join(here, pid), exist_ok=True)
